@@ -37,7 +37,9 @@ def gen_cases(tier: str, seed: int) -> List[Dict[str, Any]]:
         rng = rng_for(seed, PROPERTY, "prof", i)
         cases.append({"kind": "track", "seed": derive_seed(seed, PROPERTY, i) % (2**31), "backward": rng.random() < 0.75, "zeros": rng.random() < 0.3,
                       "profile": {"dtype": "float32", "max_ops": rng.choice([2, 5, 9, 14]), "residual": rng.choice([0, 1, 2]),
-                                  "forms": [f for f in FORMS if rng.random() < 0.5], "loss": rng.random() < 0.25, "extras": rng.random() < 0.6}})
+                                  "forms": [f for f in FORMS if rng.random() < 0.5], "loss": rng.random() < 0.25, "extras": rng.random() < 0.6},
+                      # some of the module's parameters frozen (requires_grad=False) or turned into float buffers
+                      "frozen": rng.choice(["none", "none", "some-params", "buffers", "all-params"])})
     for i in range(32 if tier == "quick" else 400):
         cases.append({"kind": "analyse", "seed": derive_seed(seed, PROPERTY, "an", i) % (2**31)})
     return cases
@@ -176,6 +178,18 @@ def run_track(case, ctx) -> None:
             if t.is_floating_point():
                 t.view(-1)[:: 3] = 0.0
     key = "C18"
+    frozen = case.get("frozen", "none")
+    if frozen != "none":
+        frng = rng_for(case["seed"], "frozen")
+        for name, p in list(m.named_parameters()):
+            if frozen == "all-params" or frng.random() < 0.5:
+                if frozen == "buffers" and "." not in name:
+                    del m._parameters[name]
+                    m.register_buffer(name, p.detach().clone())
+                else:
+                    p.requires_grad_(False)
+        ctx.count("form:module-with-" + frozen)
+    flags_before = {k: v.requires_grad for k, v in list(m.named_parameters()) + list(m.named_buffers())}
     captured: Dict[str, Any] = {}
     orig_call = T.ScaleTrackingBackend.__call__
 
@@ -226,14 +240,29 @@ def run_track(case, ctx) -> None:
         if any(not t.requires_grad for t in float_ins_t):
             ctx.violation(f"{key}:inputs-not-made-differentiable", "track_scales is documented to set requires_grad on floating-point inputs", source=src)
             return
-        lt = float_ins_t + [pt[k] for k in sorted(pt)]
-        lo = [t for t in ins_o if t.is_floating_point()] + [po[k] for k in sorted(po)]
-        try:
-            gt = torch.autograd.grad([y for y in outs_t if y.requires_grad], lt, [u for y, u in zip(outs_t, ups) if y.requires_grad], allow_unused=True)
-        except Exception as e:
-            ctx.violation(f"{key}:tracked-backward-raises:{exc_key(e)}", repr(e), source=src)
+        flags_after = {k: v.requires_grad for k, v in list(tm.named_parameters()) + list(tm.named_buffers())}
+        flags_orig = {k: v.requires_grad for k, v in list(m.named_parameters()) + list(m.named_buffers())}
+        ctx.count("sanitizer:requires_grad-flags-compared", len(flags_before))
+        if flags_after != flags_before or flags_orig != flags_before:
+            diff = sorted(k for k in flags_before if flags_after.get(k) != flags_before[k] or flags_orig.get(k) != flags_before[k])
+            ctx.violation(f"{key}:tracking-changes-requires_grad-of-parameters-or-buffers", f"requires_grad flipped on {diff[:5]}", source=src, frozen=frozen)
             return
-        go = torch.autograd.grad([y for y in outs_o if y.requires_grad], lo, [u for y, u in zip(outs_o, ups) if y.requires_grad], allow_unused=True)
+        lt = float_ins_t + [pt[k] for k in sorted(pt) if po[k].requires_grad]
+        lo = [t for t in ins_o if t.is_floating_point()] + [po[k] for k in sorted(po) if po[k].requires_grad]
+        if [y.requires_grad for y in outs_t] != [y.requires_grad for y in outs_o]:
+            ctx.violation(f"{key}:tracked-output-requires_grad-differs-from-untracked", f"{[y.requires_grad for y in outs_t]} vs {[y.requires_grad for y in outs_o]}",
+                          source=src)
+            return
+        if not lo or not any(y.requires_grad for y in outs_o):
+            ctx.count("no-differentiable-leaf-or-output")
+            gt = go = ()
+        else:
+            try:
+                gt = torch.autograd.grad([y for y in outs_t if y.requires_grad], lt, [u for y, u in zip(outs_t, ups) if y.requires_grad], allow_unused=True)
+            except Exception as e:
+                ctx.violation(f"{key}:tracked-backward-raises:{exc_key(e)}", repr(e), source=src)
+                return
+            go = torch.autograd.grad([y for y in outs_o if y.requires_grad], lo, [u for y, u in zip(outs_o, ups) if y.requires_grad], allow_unused=True)
         for a, b in zip(gt, go):
             if (a is None) != (b is None):
                 ctx.violation(f"{key}:tracked-gradient-differs-from-untracked:gradient-missing", "a gradient exists on one side only", source=src)
